@@ -278,11 +278,9 @@ func runC14(r *Run, p *Prog) {
 			r.Unresolved("L5", "Service.Shutdown")
 			return
 		}
-		isStop := func(in ssa.Instruction) bool { return isZeroStoreTo(in, "running") }
-		isClose := func(in ssa.Instruction) bool {
-			c, ok := in.(*ssa.Call)
-			return ok && c.Call.IsInvoke() && c.Call.Method.Name() == "Close" && strings.HasSuffix(strip(T.T(c.Call.Value)), ".listener")
-		}
+		ec := newEffectCache(p, T)
+		isStop := func(in ssa.Instruction) bool { return ec.zeroes(in, "running") }
+		isClose := func(in ssa.Instruction) bool { return ec.closesListener(in) }
 		ok, w := everyPathPasses(sd, nil, isReturn, isStop)
 		r.Ob("L5", shortName(sd), "running = false on every path through Shutdown", sd.Pos(), ok, "Shutdown can return without clearing the running flag: the accept loop keeps serving", witnessPos(p, w)...)
 		reach, w2 := reachInstr(sd, nil, isReturn, isClose, func(a, b *ssa.BasicBlock) bool {
@@ -362,7 +360,8 @@ func runC14(r *Run, p *Prog) {
 		for _, rf := range m.Reset {
 			for _, fld := range wl {
 				fld := fld
-				ok, w := everyPathPasses(rf, nil, isReturn, func(in ssa.Instruction) bool { return isZeroStoreTo(in, fld) })
+				ec := newEffectCache(p, T)
+				ok, w := everyPathPasses(rf, nil, isReturn, func(in ssa.Instruction) bool { return ec.zeroes(in, fld) })
 				r.Ob("L7", shortName(rf), "the reset clears Service."+fld+" on every path", rf.Pos(), ok,
 					"Service."+fld+" is written on the bind/serve path but not cleared by the reset: the next bind or serve on the same object starts from stale state", witnessPos(p, w)...)
 			}
